@@ -187,7 +187,7 @@ Proof.
       assert (In t (ids (z_kids z))) as Hin.
       { eapply Permutation_in; [apply ids_frev|]. rewrite E. left. reflexivity. }
       eapply find_incl; [apply (find_of_cur _ _ _ Hc)|right; exact Hin]. }
-    rewrite Hq1, Hq2, (proj1 (rc_none st1 None)), Hl1.
+    rewrite Hq1, Hq2, (proj1 (rc_none st1 None)), !Hl1. cbn [opt_eqb]. cbv zeta.
     assert (add_consolidate st1 t None None = (st1, false)) as ->.
     { unfold add_consolidate. destruct (negb (cons st1)); [reflexivity|]. rewrite Hvt. reflexivity. }
     reflexivity. }
